@@ -677,6 +677,8 @@ func ruleC15(c *Ctx, r *Report) {
 	if len(p.Problems) > 0 {
 		return
 	}
+	// the namespaces given to --redactFieldNames are prefixes compared as written
+	flagBinderRule(c, r, "C15-R1", "redactFieldNames")
 	hn := c.Fn("HashName")
 	cmdFn := p.cmdWalker()
 	if hn == nil || cmdFn == nil {
